@@ -11,8 +11,8 @@
 //!   * "text": the text the server holds for it,
 //!   * "analysis": its diagnostics in the server, and imports / toplevels of that text parsed afresh,
 //!   * "unresolved": for every `CannotResolveClass` diagnostic: the quick-fix `code_actions` asked with the
-//!     cursor at the start of the name and with the whole name selected, and the completion items carrying the
-//!     same label (with their `additional_edits`) asked at the start and at the end of the name.
+//!     cursor at the start of the name and with the whole name selected, and the completion items that carry
+//!     the same label or non-empty `additional_edits`, asked at the start and at the end of the name.
 //!   The harness never applies an edit: that is done by an independent applier in checks/c16.py, which
 //!   sends the edited text back through this same subcommand (empty history) to analyse it.
 use crate::front::{mod_ref, panic_msg};
@@ -81,11 +81,29 @@ fn analyze(state: &mut ServerState, m: ModuleReference) -> Value {
         .filter(|(k, l, _)| !k.ends_with("comment") && within(l, &loc))
         .map(|(_, _, s)| s.clone())
         .collect();
+      // comments in front of the toplevel: those between the previous non-comment token and the toplevel's
+      // first token that do not start on the line where that previous token ends (such a comment trails
+      // the previous item, it does not introduce this one)
+      let first = tokens.iter().position(|(k, l, _)| !k.ends_with("comment") && within(l, &loc));
+      let mut lead: Vec<String> = Vec::new();
+      if let Some(first) = first {
+        let mut k = first;
+        while k > 0 && tokens[k - 1].0.ends_with("comment") {
+          k -= 1;
+        }
+        let prev_end_line = if k > 0 { Some(tokens[k - 1].1.end.0) } else { None };
+        for (kind, l, text) in &tokens[k..first] {
+          if Some(l.start.0) != prev_end_line {
+            lead.push(format!("{kind}:{text}"));
+          }
+        }
+      }
       json!({
         "name": t.name().name.as_str(&state.heap),
         "loc": loc_json(&loc),
         "pp": samlang_printer::pretty_print_toplevel(&state.heap, 100, &parsed.comment_store, t),
         "toks": toks.join(" "),
+        "lead": lead,
       })
     })
     .collect();
@@ -113,7 +131,7 @@ fn completion_json(state: &ServerState, m: &ModuleReference, pos: Position, labe
     Ok(items) => Value::Array(
       items
         .into_iter()
-        .filter(|i| i.label == label)
+        .filter(|i| i.label == label || !i.additional_edits.is_empty())
         .map(|i| {
           json!({"label": i.label, "insert_text": i.insert_text, "detail": i.detail,
                  "kind": format!("{:?}", i.kind), "edits": edits_json(&i.additional_edits)})
